@@ -25,6 +25,13 @@ def _ext_name(v) -> str:
     return repr(v)
 
 
+def _is_op_key(eng, fn: FunctionInfo, e: ast.AST, op: str) -> bool:
+    """e denotes <key parameter>.get_op_key('<op>') (through any local)"""
+    from .common import resolve_all
+    kp = fn.pos_params[-1]
+    return resolve_all(eng, fn, e) == [f"{kp}.get_op_key('{op}')"]
+
+
 def r07_1(ctx) -> None:
     eng = ctx.eng
     P = eng.prog
@@ -69,7 +76,7 @@ def r07_1(ctx) -> None:
     hs, hv = cls("HMACAlgModel").methods["sign"], cls("HMACAlgModel").methods["verify"]
     for fn in (hs, hv):
         calls = [n for n in fn_nodes(fn) if isinstance(n, ast.Call) and norm(n.func) == "hmac.new"]
-        ok = len(calls) == 1 and len(calls[0].args) == 3 and norm(calls[0].args[0]) == "op_key" and norm(calls[0].args[1]) == fn.pos_params[1] \
+        ok = len(calls) == 1 and len(calls[0].args) == 3 and _is_op_key(eng, fn, calls[0].args[0], fn.name) and norm(calls[0].args[1]) == fn.pos_params[1] \
             and norm(calls[0].args[2]) == f"{fn.self_name}.hash_alg"
         ctx.check(ok, "R07.1", fn, fn.node, f"{fn.short} :: HMAC", "HSn is not HMAC(raw key octets, message, SHA-n)", "hmac.new(op_key, msg, self.hash_alg)", construct=f"HMAC call in {fn.name}")
     # the oct key's operation key is its raw octets
@@ -82,7 +89,7 @@ def r07_1(ctx) -> None:
     for cn, pad in (("RSAAlgModel", True), ("RSAPSSAlgModel", True)):
         for m in ("sign", "verify"):
             fn = cls(cn).methods[m]
-            calls = [n for n in fn_nodes(fn) if isinstance(n, ast.Call) and isinstance(n.func, ast.Attribute) and n.func.attr == m and norm(n.func.value) == "op_key"]
+            calls = [n for n in fn_nodes(fn) if isinstance(n, ast.Call) and isinstance(n.func, ast.Attribute) and n.func.attr == m and _is_op_key(eng, fn, n.func.value, m)]
             want = [fn.pos_params[1], f"{fn.self_name}.padding", f"{fn.self_name}.hash_alg()"] if m == "sign" else \
                 [fn.pos_params[2], fn.pos_params[1], f"{fn.self_name}.padding", f"{fn.self_name}.hash_alg()"]
             ok = len(calls) == 1 and [norm(a) for a in calls[0].args] == want
@@ -91,13 +98,13 @@ def r07_1(ctx) -> None:
     ec = cls("ECAlgModel")
     for m in ("sign", "verify"):
         fn = ec.methods[m]
-        calls = [n for n in fn_nodes(fn) if isinstance(n, ast.Call) and isinstance(n.func, ast.Attribute) and n.func.attr == m and norm(n.func.value) == "op_key"]
+        calls = [n for n in fn_nodes(fn) if isinstance(n, ast.Call) and isinstance(n.func, ast.Attribute) and n.func.attr == m and _is_op_key(eng, fn, n.func.value, m)]
         ok = len(calls) == 1 and norm(calls[0].args[-1]) == f"ECDSA({fn.self_name}.hash_alg())"
         ctx.check(ok, "R07.1", fn, fn.node, f"{fn.short} :: ECDSA hash", "ECDSA is not used with the algorithm's hash", "ECDSA(self.hash_alg())", construct=f"ECDSA call in {m}")
     ed = P.cls("rfc8037.jws_eddsa:EdDSAAlgModel")
     for m in ("sign", "verify"):
         fn = ed.methods[m]
-        calls = [n for n in fn_nodes(fn) if isinstance(n, ast.Call) and isinstance(n.func, ast.Attribute) and n.func.attr == m and norm(n.func.value) == "op_key"]
+        calls = [n for n in fn_nodes(fn) if isinstance(n, ast.Call) and isinstance(n.func, ast.Attribute) and n.func.attr == m and _is_op_key(eng, fn, n.func.value, m)]
         want = [fn.pos_params[1]] if m == "sign" else [fn.pos_params[2], fn.pos_params[1]]
         ok = len(calls) == 1 and [norm(a) for a in calls[0].args] == want and not calls[0].keywords
         ctx.check(ok, "R07.1", fn, fn.node, f"{fn.short} :: pure EdDSA", "EdDSA is not the pure (no pre-hash) signature over the message", f"op_key.{m}({', '.join(want)})", construct=f"EdDSA call in {m}")
